@@ -57,6 +57,8 @@ type ServerPlan struct {
 	C2S        rt.PipeConfig        `json:"c2s"`
 	S2C        rt.PipeConfig        `json:"s2c"`
 	CloseAtEnd bool                 `json:"close_at_end"` // the client closes its write side after the script (else it just stops sending, then closes after a long while)
+	// CancelMs: the context passed to RunATPServer is cancelled (-1 never, 0 before the server starts, n after n fake ms)
+	CancelMs int `json:"cancel_ms"`
 	Features   map[string]bool      `json:"features"`
 }
 
@@ -71,6 +73,7 @@ type ServerOpts struct {
 	Slow       bool
 	DoneTwice  bool
 	MaxElems   int
+	Cancel     bool // the server's context is cancelled at some point (not a client action: restricted oracle)
 }
 
 func serverOptsFor(batch string) ServerOpts {
@@ -89,6 +92,8 @@ func serverOptsFor(batch string) ServerOpts {
 		return ServerOpts{Signals: true, AnyDataSig: true, MaxElems: 6}
 	case "c07.crash":
 		return ServerOpts{Hostile: true, Signals: true, Slow: true, Misbehave: true, MaxElems: 7}
+	case "c07.cancel":
+		return ServerOpts{Signals: true, Slow: true, Misbehave: true, MaxElems: 8, Cancel: true}
 	}
 	return ServerOpts{MaxElems: 6}
 }
@@ -110,6 +115,10 @@ func PlanServer(s Src, o ServerOpts) *ServerPlan {
 	p.C2S = drawPipe(s, "c2s", false)
 	p.S2C = drawPipe(s, "s2c", false)
 	p.CloseAtEnd = s.Choose("sv.closeatend", 4) != 3
+	p.CancelMs = -1
+	if o.Cancel {
+		p.CancelMs = []int{0, 0, 1, 50, 2000, 70000}[s.Choose("sv.cancelms", 6)]
+	}
 	p.Elems = append(p.Elems, Elem{Kind: "start", Bytes: enc(nil)})
 	n := 1 + s.Choose("sv.nelems", o.MaxElems)
 	runNo := 0
@@ -310,6 +319,10 @@ type ServerObs struct {
 	ServerDied     bool
 	DeliveredSet   bool
 	ReaderClosedAt int64 // -1 = never
+	// the state of the server's input at the moment RunATPServer returned
+	ConsumedAtReturn     int64
+	WriterClosedAtReturn bool
+	ReadFaultAtReturn    bool
 }
 
 var siteScript = rt.H("harness.scriptClient")
@@ -376,9 +389,19 @@ func runServerPlan(t *testing.T, plan *ServerPlan, fault ServerFault, tape *rt.T
 		}
 		ctx, cancel := context.WithCancel(context.Background())
 		defer cancel()
+		if plan.CancelMs == 0 {
+			cancel()
+		} else if plan.CancelMs > 0 {
+			rt.GoNamed("canceller", func() {
+				time.Sleep(time.Duration(plan.CancelMs) * time.Millisecond)
+				rt.Yield(siteScript)
+				cancel()
+			})
+		}
 		serverDone := make(chan struct{})
 		rt.GoNamed("server", func() {
 			obs.Errs = atp.RunATPServer(ctx, rt.ReadEnd{P: obs.C2S}, rt.WriteEnd{P: obs.S2C}, plugin)
+			obs.ConsumedAtReturn, obs.WriterClosedAtReturn, obs.ReadFaultAtReturn = obs.C2S.ReadState()
 			obs.Returned = true
 			obs.C2S.KillRead()
 			obs.S2C.KillWrite()
@@ -535,6 +558,24 @@ func JudgeServer(plan *ServerPlan, fault ServerFault, obs *ServerObs, out rt.Out
 	if !outputIntact {
 		return vs // (3) and (4) are waived once the script broke the output side
 	}
+	// the server returns once its input has ended: not while the client is still connected and everything it
+	// sent so far was fine (the plugin process would exit under the client's feet)
+	if obs.C2S != nil && !obs.ServerDied && !obs.WriterClosedAtReturn && !obs.ReadFaultAtReturn {
+		upTo := obs.ConsumedAtReturn
+		if upTo > int64(len(delivered)) {
+			upTo = int64(len(delivered))
+		}
+		seen := modelClientStream(delivered[:upTo])
+		if !seen.done && (!seen.fatal || seen.truncated) {
+			add("mismatch", "returned-while-input-open", fmt.Sprintf("RunATPServer returned after reading %d bytes although the client had neither closed its stream nor sent client-done nor anything undecodable (processed so far: %v; context cancelled at: %d ms; server errors=%v)", upTo, seen.processed, plan.CancelMs, errList(obs.Errs)))
+			return vs
+		}
+	}
+	if plan.CancelMs >= 0 {
+		// cancelling the server's context is not a client action: after it the server deliberately stops reporting
+		// (its closure handler leaves), so the accounting of terminal messages below is not applied
+		return vs
+	}
 	_ = limit
 	if model.startSeen && !hello {
 		add("mismatch", "no-hello", "the start-output message was delivered but no hello came back")
@@ -599,6 +640,7 @@ type clientModel struct {
 	problems  int            // messages that must be reported as errors
 	processed []string
 	fatal     bool // the stream stopped being a sequence of runtime messages
+	truncated bool // ... because it ends inside an item (more input could complete it)
 	done      bool // client-done seen
 }
 
@@ -635,6 +677,7 @@ func modelClientStream(b []byte) *clientModel {
 		if err := dec.Decode(&env); err != nil {
 			if err != io.EOF {
 				m.fatal = true
+				m.truncated = err == io.ErrUnexpectedEOF
 				m.problems++
 				m.processed = append(m.processed, "undecodable")
 			}
